@@ -216,7 +216,12 @@ func Text(x Rx, prec int) string {
 		}
 		return s
 	case Card:
-		return Text(x.X, 2) + x.Op
+		s := Text(x.X, 2) + x.Op
+		if prec >= 2 {
+			// only one cardinality per term: nest through a group
+			return "(" + s + ")"
+		}
+		return s
 	}
 	panic("rx")
 }
